@@ -505,41 +505,85 @@ func c08Merge(c *Ctx, p *Prog, ms map[string]*ssa.Function) {
 }
 
 func c08Wide(c *Ctx, p *Prog, ms map[string]*ssa.Function) {
-	sc := ms["SetContent"]
-	var site ssa.Instruction
-	for _, call := range callsIn(sc, func(n string, cc *ssa.CallCommon) bool { return strings.HasSuffix(n, "CellBuffer).SetDirty") }) {
-		cc := callCommon(call)
-		if v, ok := constBool(cc.Args[3]); ok && v {
-			// x + i with i bounded by c.width
-			if bo, ok := cc.Args[1].(*ssa.BinOp); ok && bo.Op == token.ADD && valName(bo.X) == "x" {
-				g := guardsAt(call.Block())
-				for _, a := range g {
-					if (a.Op == "<" && strings.HasSuffix(a.R, ".width")) || (a.Op == ">" && strings.HasSuffix(a.L, ".width")) {
-						site = call
-					}
+	// every method that replaces a cell's rune must dirty the columns a wide rune covered,
+	// before it overwrites the width that says how many there were.  Resize builds a fresh
+	// (all dirty) buffer; SetDirty's zero-rune rewrite does not change what is displayed.
+	for _, name := range sortedKeys(ms) {
+		fn := ms[name]
+		if name == "Resize" || name == "SetDirty" || len(storesTo(fn, cellOwner, "currMain")) == 0 {
+			continue
+		}
+		var site ssa.Instruction
+		widthBounded := func(b *ssa.BasicBlock) bool {
+			for _, a := range guardsAt(b) {
+				if (a.Op == "<" && strings.HasSuffix(a.R, ".width")) || (a.Op == ">" && strings.HasSuffix(a.L, ".width")) {
+					return true
+				}
+			}
+			return false
+		}
+		for _, call := range callsIn(fn, func(n string, cc *ssa.CallCommon) bool { return strings.HasSuffix(n, "CellBuffer).SetDirty") }) {
+			cc := callCommon(call)
+			if v, ok := constBool(cc.Args[3]); ok && v {
+				if bo, ok := cc.Args[1].(*ssa.BinOp); ok && bo.Op == token.ADD && widthBounded(call.Block()) {
+					site = call
 				}
 			}
 		}
-	}
-	if site == nil {
-		c.Fail("C08-R6", "SetContent:wide-dirty-loop", p.pos(sc.Pos()), "no loop calling SetDirty(x+i, y, true) for i < c.width")
-		return
-	}
-	// the loop precedes every store to width: no width store can execute before the loop is decided
-	ok := true
-	for _, s := range storesTo(sc, cellOwner, "width") {
-		if reachableAfter(s, site) {
-			ok = false
+		// or a direct force-dirty store (lastMain = 0) into a neighbouring cell, bounded by the width
+		for _, st := range storesTo(fn, cellOwner, "lastMain") {
+			if k, ok := constInt(st.Val); ok && k == 0 && widthBounded(st.Block()) {
+				site = st
+			}
 		}
-	}
-	// the loop is entered under a comparison of the new content with the old (mainc != c.currMain …)
-	cmp := false
-	for a := range atomsOf(sc) {
-		if strings.Contains(a, "currMain") && strings.Contains(a, "mainc") {
-			cmp = true
+		key := name + ":wide-dirty-loop"
+		if site == nil {
+			c.Fail("C08-R6", key, p.pos(fn.Pos()), name+" replaces the rune of a cell but never dirties the columns a wide rune covered (no SetDirty(x+i, y, true) / lastMain = 0 for i < c.width)")
+			continue
 		}
+		ok := true
+		// within the treatment of one cell no width store may run before the dirtying: paths are
+		// followed without crossing the header of a loop over the cells
+		avoid := map[*ssa.BasicBlock]bool{}
+		for h := range loopsOf(fn) {
+			for _, in := range h.Instrs {
+				if bo, isBO := in.(*ssa.BinOp); isBO && isRangeIndex(bo) {
+					avoid[h] = true
+				}
+			}
+		}
+		for _, st := range storesTo(fn, cellOwner, "width") {
+			seen := map[*ssa.BasicBlock]bool{}
+			var reach func(b *ssa.BasicBlock, from int) bool
+			reach = func(b *ssa.BasicBlock, from int) bool {
+				for k := from; k < len(b.Instrs); k++ {
+					if b.Instrs[k] == site {
+						return true
+					}
+				}
+				for _, sc := range b.Succs {
+					if seen[sc] || avoid[sc] {
+						continue
+					}
+					seen[sc] = true
+					if reach(sc, 0) {
+						return true
+					}
+				}
+				return false
+			}
+			if reach(st.Block(), instrIndex(st)+1) {
+				ok = false
+			}
+		}
+		cmp := false
+		for a := range atomsOf(fn) {
+			if strings.Contains(a, "currMain") {
+				cmp = true
+			}
+		}
+		c.Check(ok && cmp, "C08-R6", key, p.pos(site.Pos()), fmt.Sprintf("covered columns dirtied before the width store: %v; entered on a comparison with the current rune: %v", ok, cmp))
 	}
-	c.Check(ok && cmp, "C08-R6", "SetContent:wide-dirty-loop", p.pos(site.Pos()), fmt.Sprintf("covered columns dirtied before the width store: %v; entered on a content comparison: %v", ok, cmp))
 }
 
 // c08Width: shared with C09-R3.
